@@ -115,7 +115,8 @@ def register4(reg):
     ROK = f'memo_ok(self._results, {LEN})'
     contract(reg, f'{K}:ParserCore.heartbeat', ['C01', 'C03', 'C04'], {'self': 'Ctx'}, ret='bool', verify=False, modifies=[], wf=False,
              note='progress callback; assumed not to touch the parse state (may raise HeartDied, a TatSu error)')
-    contract(reg, f'{K}:ParserCore.set_furthest_exception', ['C01', 'C08'], {'self': 'Ctx', 'e': 'any'}, ret='None', verify=False, modifies=[], wf=False,
+    contract(reg, f'{K}:ParserCore.set_furthest_exception', ['C01', 'C08', 'C04'], {'self': 'Ctx', 'e': 'any'}, ret='None', verify=False, wf=False,
+             modifies=['self.ghost_recorded'], ensures=['self.ghost_recorded == exc_id(e)'],
              note='keeps the failure with the largest position for error reporting; not part of the parse state')
     contract(reg, f'{E}:ParserEngine.clear_recursion_errors', ['C03', 'C04'], {'self': 'Ctx'}, ret='None', modifies=['self._memos'], wf=False,
              ensures=['submap(self._memos, old_self._memos)'])
@@ -145,7 +146,7 @@ def register4(reg):
     WS = f'uf_ws_end({OTOP}.cursor)'
     START = f'({OTOP}.cursor.pos if ri.is_tokn else {WS})'
     contract(reg, f'{E}:ParserEngine.call', ['C01', 'C03', 'C04', 'C05', 'C06', 'C09'], {'self': 'Ctx', 'ri': 'RuleInfoR'}, ret='Val',
-             modifies=['self.states.state_stack', 'self.states.callstack', 'self._memos', 'self._results', 'self.ghost_stamped'],
+             modifies=['self.states.state_stack', 'self.states.callstack', 'self._memos', 'self._results', 'self.ghost_stamped', 'self.ghost_recorded'],
              requires=REQ + [MOK, ROK],
              ensures=[f'top_only({S}, {OS})', f'spec_same_text({OTOP}, {TOP})',
                       ('property', f'{TOP}.cst == spec_cstadd({OTOP}.cst, result)'),
@@ -153,7 +154,9 @@ def register4(reg):
                       ('property', f'{TOP}.cutseen == {OTOP}.cutseen'),
                       ('property', 'self.states.callstack == old_self.states.callstack'), MOK, ROK],
              raises={'FailedParse': [('property', f'{S} == {OS}[:-1] + [spec_at({OTOP}, {START})]'),
-                                     'self.states.callstack == old_self.states.callstack', MOK, ROK],
+                                     'self.states.callstack == old_self.states.callstack', MOK, ROK,
+                                     # C04: the failure is recorded for error reporting at every failing invocation
+                                     ('property', 'self.ghost_recorded == exc_id(exc)')],
                      'ParseException': ['self.states.callstack == old_self.states.callstack']},
              propagates=[GROW, 'self.states.callstack == old_self.states.callstack'])
 
